@@ -913,6 +913,9 @@ def run(chk):
                    or (b.crate == "emit_file" and re.search(r"default_writer|write_event|EventWriter|FileBuf", b.key) is not None)) and "::tests::" not in b.key,
         {(r"emit_otlp::data::stream_attributes$", "for_each"): "KNOWN FINDING D20 (C13.R5.errors): the enumeration's outcome is dropped",
          }, 150)
+    from . import shapes
+    shapes.sum_points_add(chk, P, "C13.R8:sum-accumulates")
+    shapes.range_is_end_minus_start(chk, P, "C13.R8:range-end-minus-start")
     return chk
 
 
